@@ -47,7 +47,8 @@ class ColumnLineageMixin:
                     ]
                     if len(path) > 1:
                         columns.add(tuple(path))
-                else:
+                elif len(path) > 1:
+                    # a column nothing feeds is both source and target: its one-node "path" is not lineage
                     columns.add(tuple(path))
         return columns
 
